@@ -642,6 +642,9 @@ pub(super) struct Upd {
     pub view: (f64, f64, bool, i64),
     /// mock local clock after the update
     pub local_now: u64,
+    /// the controller's source table after the update: (id, usable, f64 view of the held
+    /// snapshot, advertised root dispersion units); uncertainties are those combine() saw
+    pub table: Vec<(u64, bool, Option<[f64; 8]>, i64)>,
 }
 
 #[derive(Clone, Debug)]
@@ -798,6 +801,7 @@ impl World {
                     steer: u.source_message.as_ref().map(|m| m.ga_fields()),
                     end: end.clone(),
                     view: self.ctrl.ga_view(),
+                    table: if kind <= 1 { self.ctrl.ga_table() } else { Vec::new() },
                     local_now,
                 });
                 if end != End::Ok {
@@ -831,6 +835,7 @@ impl World {
                     steer: None,
                     end: end.clone(),
                     view: (f64::NAN, f64::NAN, false, 0),
+                    table: Vec::new(),
                     local_now,
                 });
                 self.kill(end);
